@@ -20,11 +20,15 @@ What is proved, for ALL inputs (no assumption that a program came from the gener
   distinct, and identifiers built from them in whatever mode (`None`/`lower`/`capitalize`) stay pairwise distinct on a
   lower-case pool.
 * `identifier_not_reserved` (full strength, for every pool drawn from the word file, every language, every mode):
-  **false of the code as it is** (`identifier_not_reserved_counterexample`: Groovy, `math` → `Math`, on the
-  REGENERATED keyword tables; also `set`, `date`, `exception`: `reserved_collisions_current`), true of the repaired
-  removal for every keyword table (`identifier_not_reserved_fixed`, no table needed), and decided for either variant
-  by one `decide` on the regenerated tables (`identifier_not_reserved_of_table`).
-  `identifier_not_reserved_status` is stated about `Pool.codeIsFixed`, THE switch (`Model/Pool.lean`).
+  **true of the code since `fix:` 656374e** (`identifier_not_reserved_current`; the repaired case-insensitive removal is
+  correct for every keyword table: `identifier_not_reserved_fixed`, no table needed) and **false of the removal as it
+  was** (`identifier_not_reserved_counterexample`: Groovy, `math` → `Math`, on the REGENERATED keyword tables; also
+  `set`, `date`, `exception`: `reserved_collisions_current`); either variant is decided by one `decide` on the
+  regenerated tables (`identifier_not_reserved_of_table`).  `Pool.codeIsFixed` (`Model/Pool.lean`) is THE switch naming
+  the variant the tree implements; `check_C05` detects the tree's variant on every run and objects if Lean is ahead.
+* about the specification itself: `closed_covers_every_use` (the site walk skips no name use, through lambdas, nested
+  functions, conditional branches, default values …) and `hier_fuel_adequate` (member lookup never stops for lack of
+  fuel on a class table without inheritance cycles).
 
 What is NOT proved (hence "partial"): that the generator only produces closed programs — `Closed` is *checked* by the
 verified walker on the explored programs; only the pool and the assignment filter are modelled and universally proved.
@@ -265,5 +269,10 @@ theorem identifier_not_reserved_iff (fixed : Bool) : identifier_not_reserved fix
     checks that it does); C05's identifier clause holds of the code iff that switch is `true` -/
 theorem identifier_not_reserved_status : identifier_not_reserved codeIsFixed ↔ codeIsFixed = true :=
   identifier_not_reserved_iff codeIsFixed
+
+/-- **the identifier clause of C05 holds of the code under test** (`codeIsFixed = true` since `fix:` 656374e; the
+    harness checks on every run that the tree implements this variant) -/
+theorem identifier_not_reserved_current : identifier_not_reserved codeIsFixed :=
+  identifier_not_reserved_status.mpr rfl
 
 end Heph.Props.C05
